@@ -87,6 +87,10 @@ struct CodecWExec {
     logical_input: Vec<u8>,
     /// everything drained so far
     drained: Vec<u8>,
+    /// a feed has not been followed by `drain_all` yet
+    undrained: bool,
+    /// every feed so far was followed by `drain_all` before the next one (the streaming regime of C10)
+    streaming: bool,
 }
 
 fn err_name(e: &DecodingError) -> String {
@@ -280,6 +284,10 @@ impl Exec for CodecWExec {
                 }
                 let Some(bytes) = parse_payload(payload) else { return StepOut::bad() };
                 self.fed += bytes.len();
+                if self.undrained {
+                    self.streaming = false;
+                }
+                self.undrained = true;
                 self.logical_input.extend_from_slice(&bytes);
                 let att = NonZeroUsize::new(4).unwrap();
                 let n = bytes.len();
@@ -359,6 +367,9 @@ impl Exec for CodecWExec {
                     1_000_000_000
                 };
                 let by_bytes = w[0] == "drain_bytes";
+                if w[0] == "drain_all" {
+                    self.undrained = false;
+                }
                 let Some((n, took)) = self.with_consumer(|c| {
                     let mut snap = Vec::new();
                     for s in c.stable_prefix() {
@@ -521,6 +532,18 @@ impl Exec for CodecWExec {
         // (three chunks of the largest size the arena allocates for codec requests, plus slack)
         if self.fed > 0 {
             so.tags.push(format!("maxlive_le_{}MiB", (self.max_live + (1 << 20) - 1) >> 20));
+            if self.streaming {
+                so.tags.push("streaming_regime".into());
+                // the current cache, the chunk holding the blocked header, and at most one more chunk
+                // that the <= 64008+2 not-yet-consumable bytes spilled into
+                let bound = 3 * MAX_CHUNK + 2 * (PROD_SUB + 2);
+                if self.max_live > bound {
+                    so.violations.push(format!(
+                        "C10 live arena bytes reached {} while streaming {} bytes with the consumer draining after every call (bound {})",
+                        self.max_live, self.fed, bound
+                    ));
+                }
+            }
         }
         self.codec = Codec::None;
         let chunks = ByteArena::num_live_chunks();
@@ -560,6 +583,8 @@ impl Family for CodecWFamily {
             fed: 0,
             logical_input: vec![],
             drained: vec![],
+            undrained: false,
+            streaming: true,
         })
     }
 
